@@ -150,7 +150,7 @@ func New(nw *simnet.Network, o Opts) (*Node, error) {
 	}
 	return &Node{
 		Name: o.Name, Serf: s, Conf: conf, Tr: tr, Net: nw, Events: ch, Log: lb,
-		Delegate: s.VerifDelegate(), EventsD: s.VerifEventDelegate(),
+		Delegate: borrowedBuffers{s.VerifDelegate()}, EventsD: s.VerifEventDelegate(),
 	}, nil
 }
 
@@ -272,4 +272,30 @@ func splitPacket(b []byte) [][]byte {
 		return out
 	}
 	return nil
+}
+
+// borrowedBuffers hands serf's delegate its input the way memberlist does: in
+// a buffer that belongs to the caller and is used for something else as soon
+// as the call returns ("the byte slice may be modified after the call returns,
+// so it should be copied if needed"). The wrapper delivers a private copy and
+// overwrites it afterwards, so a decoded value that still points into the
+// buffer shows as garbage in whatever the check looks at later.
+type borrowedBuffers struct{ memberlist.Delegate }
+
+func scribble(b []byte) {
+	for i := range b {
+		b[i] = 0xEE
+	}
+}
+
+func (d borrowedBuffers) NotifyMsg(buf []byte) {
+	tmp := append(make([]byte, 0, len(buf)), buf...)
+	d.Delegate.NotifyMsg(tmp)
+	scribble(tmp)
+}
+
+func (d borrowedBuffers) MergeRemoteState(buf []byte, join bool) {
+	tmp := append(make([]byte, 0, len(buf)), buf...)
+	d.Delegate.MergeRemoteState(tmp, join)
+	scribble(tmp)
 }
